@@ -189,6 +189,45 @@ def misprediction():
     finally:
         shutil.rmtree(base, ignore_errors=True)
 
+def dirty_uploader():
+    """git sources with live Build-Id prediction: the uploader's checkout carries an uncommitted edit when it builds and
+    uploads again.  A pristine downloader (same upstream commit) must end up with what a purely local build gives."""
+    import subprocess
+    base = tempfile.mkdtemp(prefix='c07g-'); log = []
+    env = {'GIT_CONFIG_NOSYSTEM': '1', 'GIT_AUTHOR_NAME': 'u', 'GIT_AUTHOR_EMAIL': 'u@example.com', 'GIT_COMMITTER_NAME': 'u', 'GIT_COMMITTER_EMAIL': 'u@example.com', 'HOME': base}
+    def git(cwd, *a):
+        e = dict(os.environ); e.update(env); subprocess.run(['git', *a], cwd=cwd, check=True, stdout=subprocess.DEVNULL, stderr=subprocess.DEVNULL, env=e)
+    def proj(sub):
+        d = os.path.join(base, sub, 'proj'); os.makedirs(d); p = P.Project(root=d); p.env.update(env); return p
+    try:
+        up = os.path.join(base, 'upstream'); os.makedirs(up); os.makedirs(os.path.join(base, 'archive')); git(up, 'init', '-q', '-b', 'master')
+        open(os.path.join(up, 'data.txt'), 'w').write('committed content v1\n'); git(up, 'add', 'data.txt'); git(up, 'commit', '-q', '-m', 'v1')
+        model = {'recipes': {'r0': {'root': True, 'checkoutSCM': {'scm': 'git', 'url': 'file://' + up, 'branch': 'master'},
+                                    'buildScript': 'cp "$1/data.txt" result.txt\n', 'packageScript': 'cp "$1/result.txt" .\n'}},
+                 'config': {}, 'files': {'default.yaml': 'archive:\n  backend: file\n  path: "%s"\n' % os.path.join(base, 'archive')}}
+        U = proj('uploader'); D = proj('some/where/else'); L = proj('local')
+        U.write(model); rc, out = U.bob('dev', 'r0', '--upload'); log.append('U: fresh checkout, build, upload')
+        if rc != 0: return None, ['(setup failed: %s)' % out[-200:]]
+        src = None
+        for root, dirs, files in os.walk(os.path.join(U.dir, 'dev', 'src')):
+            if 'data.txt' in files and '.git' in dirs: src = os.path.join(root, 'data.txt')
+        if src is None: return None, ['(setup failed: no checkout)']
+        open(src, 'w').write('LOCAL UNCOMMITTED EDIT\n'); log.append('U: uncommitted edit in the checkout')
+        rc, out = U.bob('dev', 'r0', '--upload'); log.append('U: build and upload again')
+        if rc != 0: return None, ['(setup failed: second upload)']
+        D.write(model); rc, outD = D.bob('dev', 'r0', '--download', 'yes'); log.append('D: pristine project elsewhere, download yes')
+        if rc != 0: return {'kind': 'download-build-failed', 'output': outD[-400:], 'history': log}, log
+        L.write(model); rc, outL = L.bob('dev', 'r0', '--download', 'no'); log.append('L: purely local build')
+        if rc != 0: return None, ['(setup failed: local build)']
+        if result_of(D) != result_of(L):
+            return {'kind': 'download-build-differs-from-local-build', 'result': result_of(D), 'expected': result_of(L), 'history': log,
+                    'what': 'the live-build-id mapping of a locally modified checkout was published for the pristine commit'}, log
+        return None, log
+    except Exception as ex:
+        return None, ['harness problem: %r' % (ex,)]
+    finally:
+        shutil.rmtree(base, ignore_errors=True)
+
 def hosttool():
     """fingerprinted and/or non-relocatable tools at two locations and on two emulated hosts"""
     base = tempfile.mkdtemp(prefix='c07h-'); log = []
@@ -269,7 +308,7 @@ def replay(rep):
     n = 24 if thorough else 6; steps = 3 if thorough else 2
     tried = 0; distinct = set(); samples = []; problems = 0
     with cf.ThreadPoolExecutor(max_workers=8) as ex:
-        futs = [ex.submit(misprediction), ex.submit(hosttool), ex.submit(corrupt_artifact)] + [ex.submit(one_case, seed * 1000 + i, steps) for i in range(n)]
+        futs = [ex.submit(misprediction), ex.submit(dirty_uploader), ex.submit(hosttool), ex.submit(corrupt_artifact)] + [ex.submit(one_case, seed * 1000 + i, steps) for i in range(n)]
         for f in cf.as_completed(futs):
             w, log = f.result(); tried += 1
             if log and (str(log[-1]).startswith('harness problem') or str(log[-1]).startswith('(project does not build') or str(log[-1]).startswith('(setup')): problems += 1; samples.append({'problem': log[-1]}) if len(samples) < 3 else None; continue
@@ -278,5 +317,5 @@ def replay(rep):
             if w is not None: return {'reproduced': True, 'tried': tried, 'witness': w}
     if problems > tried // 2: return {'reproduced': None, 'detail': 'harness problems in %d of %d cases: %s' % (problems, tried, samples[:2])}
     return {'reproduced': False, 'tried': tried, 'distinct': len(distinct), 'samples': samples,
-            'bound': '3 directed scenarios (live-build-id misprediction + restart, fingerprinted/non-relocatable tool at 2 locations x 2 hosts, tampered artifacts) + %d generated projects x %d edits, uploader + downloader (3 states, random download mode, 2 emulated hosts) + local reference builds' % (n, steps),
+            'bound': '4 directed scenarios (live-build-id misprediction + restart, uploader with a locally modified git checkout, fingerprinted/non-relocatable tool at 2 locations x 2 hosts, tampered artifacts) + %d generated projects x %d edits, uploader + downloader (3 states, random download mode, 2 emulated hosts) + local reference builds' % (n, steps),
             'detail': 'download builds equalled local builds; equal Build-Ids always had equal content; uploaded states were taken without build steps'}
